@@ -255,7 +255,8 @@ class R(object):
         for i, tok in enumerate(toks):
             if i > 0:
                 if self.draw(st.integers(0, 6)) == 0:
-                    line += self.ws(1) + '\\' + self.draw(st.sampled_from(['', '', ' ', '\t'])) + '\n' + self.ws(0)
+                    # the backslash may follow the token directly and the next line may start in column one: the two tokens stay apart
+                    line += self.ws(self.draw(st.sampled_from([1, 1, 0]))) + '\\' + self.draw(st.sampled_from(['', '', ' ', '\t'])) + '\n' + self.ws(0)
                     cont = True
                 else:
                     line += self.ws(1)
